@@ -44,6 +44,10 @@ CHECKS = {
                 technique="symbolic execution of the compiled EvalRates (exact literals, libm uninterpreted) for Leeds- and UCLCHEM-format grain reactions under each dust model + SMT equivalence with independently written Hasegawa-Herbst / Roberts et al. formulae; native libm replay; unsupported (model, process) pairs must be refused",
                 text="For accretion (neutral / ion / electron), thermal, cosmic-ray, photo and H2-formation desorption, grain recombination and electron capture under hh93, hh93i, rr07, rr07x and species CO, H2O, CH4, C, H, C+, H3O+, e- (RATE12 and user-supplied binding energies and yields) z3 shows 'exists physical parameters: k[i] assigned and != law' unsat; models asked for a process they do not implement refuse at generation time.",
                 note="Mass numbers and binding energies are read independently; physical constants as the project defines them; surface two-body and reactive desorption are outside the encoded set; GetMantleDens opaque."),
+    "C12": dict(engine=E1, cat="translation_validation", sec="6 C12",
+                technique="the real Fortran->C translator's output is compiled (exact literals) and executed symbolically; z3 compares it, for all variable values, with the term an independent Fortran-semantics reader builds from the input text (libm uninterpreted); sat answers replayed natively with real libm",
+                text="For expressions derived from the translator's own grammar to depth 3 (+ - * / ** parentheses, exp/sqrt/log, integer/real/d-exponent literals, KROME variables, user @common variables, n(idx_X)) and every rate expression of the bundled KROME networks: accepted expressions are value-equal to Fortran semantics and each n(idx_X) resolves to that species' abundance slot, or the expression is rejected at generation time.",
+                note="Chained ** (left-associated) and multi-character / electron idx names are recorded known findings. Fortran semantics per the standard; integer**negative integer and intrinsics beyond exp/sqrt/log/log10 are outside the generated set."),
     "C13": dict(engine=E1, cat="translation_validation", sec="6 C13",
                 technique="differential symbolic execution: compiled EvalRates/Fex of the project with modifiers vs. the plain project vs. the modifier text (exact arithmetic reader), SMT equivalence per reaction and species; API path and init->TOML->render path compared",
                 text="For rate-modifier sets (index present / absent / shared by two reactions / index 0 / negative and compound values / unindexed network re-indexed by joining order) z3 shows k[i] equals the modifier value exactly for the reactions carrying the key and equals the unmodified rate (guard included) for all others; for ODE-modifier sets (1-3 dependencies, repeated, signed/compound factors) ydot differs from the plain project by exactly factor x product on the target species; the project rendered through the configuration file is term-equivalent to the API rendering.",
